@@ -126,6 +126,36 @@ def vclass(v):
     return (v["oracle"], v["component"])
 
 
+_CANARY = {}          # world name -> observation of the canary scenario at process start
+_POISONED = set()
+
+
+def arm_canary(world):
+    """Compute the canary observation while the process is still pristine (before any run)."""
+    if hasattr(world, "canary") and world.NAME not in _CANARY:
+        _CANARY[world.NAME] = cjson(world.canary())
+
+
+def check_canary(world, out):
+    """After a run: fresh objects fed a fixed input must still give what they gave at process start.
+    If not, the run left hidden process-wide state behind (module / class level, caches that change
+    results) - the outputs are no longer a function of the inputs, which every property presupposes.
+    The first run after which the canary differs is the one that poisoned the state; its trace alone
+    reproduces in a fresh interpreter (canary, run, canary)."""
+    name = getattr(world, "NAME", None)
+    if name not in _CANARY or name in _POISONED:
+        return
+    try:
+        now = cjson(world.canary())
+    except Exception as e:      # noqa
+        now = "exception:%s:%s" % (type(e).__name__, str(e)[:200])
+    if now != _CANARY[name]:
+        _POISONED.add(name)
+        out.violate("I0-no-hidden-shared-state", "canary",
+                    {"note": "a fixed scenario on fresh objects gives another result after this run than at process start",
+                     "before": _CANARY[name][:400], "after": now[:400]})
+
+
 def safe_execute(world, prop, trace):
     """world.execute, with an exception escaping from it turned into a violation.
 
@@ -137,8 +167,11 @@ def safe_execute(world, prop, trace):
     defect.  The exception is deterministic, so it minimises and replays like
     any other violation."""
     import traceback
+    arm_canary(world)
     try:
-        return world.execute(prop, trace)
+        out = world.execute(prop, trace)
+        check_canary(world, out)
+        return out
     except Exception as e:      # noqa
         out = Outcome()
         tb = traceback.extract_tb(e.__traceback__)
